@@ -30,6 +30,31 @@ def palette(rng):
     return vals
 
 
+def want_code(v, lo):
+    if v[0] == "int":
+        return 0 if lo <= v[1] <= I32[1] else 1
+    if v[0] in ("bool", "ienum"):
+        return 0       # bool is an int in Python (True/False are 1/0, inside both ranges); an IntEnum member is an int
+    return 1
+
+
+def histories(rng):
+    hs = []
+    ns = [0, 1, 7, 4242, I32[1], I32[1] + 1, I32[0], I32[0] - 1, -1, rng.randrange(2, 2**31 - 1), rng.randrange(2**31, 2**40)]
+    for name in ("integer_validator", "uinteger_validator"):
+        for n in ns:
+            hs.append((name, [["flt", float(n)], ["int", n]]))           # an equal float first (rejected), then the int
+            hs.append((name, [["int", n], ["flt", float(n)], ["int", n]]))   # the int, its float twin, the int again
+            hs.append((name, [["int", n], ["int", n]]))
+        hs.append((name, [["bool", True], ["int", 1], ["flt", 1.0], ["bool", True]]))
+        hs.append((name, [["flt", 1.0], ["bool", True], ["int", 1]]))
+        hs.append((name, [["bool", False], ["int", 0], ["flt", 0.0], ["flt", -0.0], ["int", 0]]))
+        hs.append((name, [["str", "1"], ["int", 1], ["none"], ["int", 1]]))
+        hs.append((name, [["int", I32[1] + 1], ["int", I32[1]], ["int", I32[1] + 1]]))
+        hs.append((name, [["int", -1], ["int", 0], ["int", -1], ["flt", -1.0], ["int", -1]]))
+    return hs
+
+
 def cpv(v):
     k = v[0]
     if k == "none":
@@ -143,6 +168,22 @@ def run(chk):
             chk.extra["traces_validated_against_impl"] = len(rows)
     # search on the real code against the spec
     witness = None
+    # (a) histories first: one process per batch, sequences of equal-but-differently-typed values in both orders, repeats, rejected-then-
+    #     accepted and accepted-then-rejected neighbours — the verdict for a value must be the same whatever was validated before
+    hist = histories(rng)
+    ph = V.run_py("r_val.py", input_=json.dumps({"histories": hist}))
+    if ph.returncode != 0:
+        raise RuntimeError("r_val (histories) failed: " + ph.stderr[-2000:])
+    for (name, seq), codes in zip(hist, json.loads(ph.stdout)["histories"]):
+        lo = I32[0] if name == "integer_validator" else 0
+        for i, (v, code) in enumerate(zip(seq, codes)):
+            chk.count((name, "history", json.dumps(seq[:i + 1])))
+            want = want_code(v, lo)
+            if code != want and witness is None:
+                witness = {"validator": name, "value": v, "history": seq[:i], "expected": want, "observed_impl": code,
+                           "codes": "0 True, 1 ValueError naming class+attribute, 3 ValueError without names, 2 other",
+                           "note": "same process: the history entries are validated first, in order, then the value"}
+    chk.extra["validator_histories"] = len(hist)
     for name, lo in (("integer_validator", I32[0]), ("uinteger_validator", 0)):
         for v, code in zip(vals, real["validators"][name]):
             chk.count((name, v))
@@ -199,6 +240,11 @@ def snake_attr(cls, wire):
 def replay(path):
     r = json.load(open(path))
     inp = r.get("input") or {}
+    if "validator" in inp and inp.get("history") is not None:
+        pr = V.run_py("r_val.py", input_=json.dumps({"histories": [(inp["validator"], list(inp["history"]) + [inp["value"]])]}))
+        got = json.loads(pr.stdout)["histories"][0][-1]
+        print("after history", inp["history"], "expected", inp["expected"], "observed", got)
+        return 1 if got != inp["expected"] else 0
     if "validator" in inp:
         pr = V.run_py("r_val.py", input_=json.dumps({"values": [inp["value"]], "fields": [], "grid": []}))
         got = json.loads(pr.stdout)["validators"][inp["validator"]][0]
